@@ -18,6 +18,7 @@
 
 namespace rt
 {
+void output_limit_exceeded(); // abandons the case in flight (hostile counts can make a traversal astronomically long)
 // end of the currently placed image (first byte of the trailing guard page); the harness itself never reads past it
 static const unsigned char* g_image_end = nullptr;
 
@@ -29,6 +30,7 @@ struct Out
     {
         if(!s.empty()) s += ' ';
         s += t;
+        if(s.size() > (8u << 20)) output_limit_exceeded();
     }
     static std::string hex64(std::uint64_t v)
     {
@@ -266,6 +268,16 @@ inline void install_handlers()
     sa.sa_flags = SA_SIGINFO | SA_NODEFER;
     sigaction(SIGSEGV, &sa, nullptr);
     sigaction(SIGBUS, &sa, nullptr);
+}
+inline void output_limit_exceeded()
+{
+    Guard& g = guard();
+    if(g.armed)
+    {
+        g.armed = false;
+        g.kind = 4;
+        siglongjmp(g.jb, 4);
+    }
 }
 [[noreturn]] inline void on_assert(const char* expr)
 {
